@@ -111,7 +111,7 @@ def check(run):
     bad = judge(nat)
     run.traces_validated += len(CASES)
     if bad and not run.violations:
-        run.inconclusive.append("the solver found no violation but the real parser disagrees with the documented behaviour: %s" % bad[:2])
+        run.violation("validation-vector scaling-lock cases", "; ".join(bad[:3]), dict(engine="validation-vector", replay="parse_report"))
     run.not_covered += [
         "every other diagnostic of the catalogue (parser-stage checks, references, notes, timers, modes, front matter): "
         "they sit behind the lexer/parser or build their messages with format!, out of reach of both engines (DESIGN 6)",
